@@ -40,9 +40,10 @@ def gen_cases(ctx):
                 for rep in range(reps):
                     td = {}
                     if t == "matryer":
-                        if ci % 2 == 0:
+                        m = ci // 2   # matryer cases have even ci
+                        if m % 2 == 0:
                             td["with-resets"] = True
-                        if ci % 4 == 1:
+                        if m % 3 != 0:
                             td["stub-impl"] = True
                     else:
                         u = [None, True, False][ci % 3]
